@@ -99,6 +99,11 @@ def regex_engine(which, args, work):
             r = json.loads(p.stdout.decode().strip().split('\n')[-1])
         except Exception:
             r = {'verdict': 'INCONCLUSIVE', 'detail': (p.stderr.decode() or p.stdout.decode())[-800:], 'sample': {'query': 'regex_equiv_' + ob, 'verdict': 'INCONCLUSIVE'}}
+        if r.get('verdict') == 'SAT' and r.get('cex') is not None:
+            d = os.path.join(VERIF, 'replays', args.pid); os.makedirs(d, exist_ok=True)
+            path = os.path.join(d, 'regex_equiv_%s.json' % ob)
+            json.dump({'property': args.pid, 'query': 'regex_equiv_' + ob, 'engine': 're2smt', 'counterexample_bytes_hex': r['cex'], 'label': r.get('label', '')}, open(path, 'w'), indent=1)
+            r['replay'] = path
         out.append(r)
     return out
 
